@@ -147,6 +147,63 @@ async fn http(addr: &SocketAddr, method: &str, target: &str, headers: &[(String,
     Resp { status }
 }
 
+/// open a websocket on the change-notification route and keep the connection: (status, stream, bytes that
+/// arrived behind the handshake answer)
+async fn ws_open(addr: &SocketAddr, account: &AccountId, signer: &BoxedEd25519Signer, conn_id: &str) -> (u16, Option<tokio::net::TcpStream>, usize) {
+    let path = "/api/v1/sync/changes";
+    let Ok(mut s) = tokio::net::TcpStream::connect(addr).await else { return (0, None, 0) };
+    let req = format!(
+        "GET {path}?connection_id={conn_id} HTTP/1.1\r\nHost: {addr}\r\nContent-Length: 0\r\nx-sos-account-id: {account}\r\nAuthorization: Bearer {}\r\nConnection: Upgrade\r\nUpgrade: websocket\r\nSec-WebSocket-Version: 13\r\nSec-WebSocket-Key: dGhlIHNhbXBsZSBub25jZQ==\r\n\r\n",
+        sig_token(signer, path.as_bytes()).await
+    );
+    if s.write_all(req.as_bytes()).await.is_err() {
+        return (0, None, 0);
+    }
+    let mut buf: Vec<u8> = vec![];
+    let mut chunk = [0u8; 512];
+    let deadline = tokio::time::Instant::now() + std::time::Duration::from_secs(10);
+    while !buf.windows(4).any(|w| w == b"\r\n\r\n") {
+        match tokio::time::timeout_at(deadline, s.read(&mut chunk)).await {
+            Ok(Ok(n)) if n > 0 => buf.extend_from_slice(&chunk[..n]),
+            _ => break,
+        }
+    }
+    let text = String::from_utf8_lossy(&buf[..buf.len().min(64)]).to_string();
+    let status: u16 = text.split_whitespace().nth(1).and_then(|x| x.parse().ok()).unwrap_or(0);
+    let end = buf.windows(4).position(|w| w == b"\r\n\r\n").map(|p| p + 4).unwrap_or(buf.len());
+    let extra = buf.len() - end;
+    if status == 101 { (status, Some(s), extra) } else { (status, None, extra) }
+}
+/// bytes the server pushed on an open websocket within `ms` (the server sends nothing but change notifications)
+async fn ws_drain(s: &mut Option<tokio::net::TcpStream>, ms: u64) -> usize {
+    let Some(s) = s.as_mut() else { return 0 };
+    let mut total = 0usize;
+    let mut chunk = [0u8; 4096];
+    let deadline = tokio::time::Instant::now() + std::time::Duration::from_millis(ms);
+    loop {
+        match tokio::time::timeout_at(deadline, s.read(&mut chunk)).await {
+            Ok(Ok(n)) if n > 0 => total += n,
+            _ => break,
+        }
+    }
+    total
+}
+
+/// d1 has been revoked (phase 1) and still holds the websocket it opened while trusted: discard what was pushed
+/// up to and including the revocation itself, let the account make one more change, count what arrives after it
+async fn ws_revoked_probe(a: &Acct, ba: &HttpBridge, sock: &mut Option<tokio::net::TcpStream>) -> usize {
+    let d0 = ws_drain(sock, 800).await;
+    let r1 = {
+        let mut acc = a.dev.bridge.account.lock().await;
+        let td = TrustedDevice::new(DeviceSigner::random().public_key(), None, None);
+        acc.patch_devices_unchecked(&[DeviceEvent::Trust(td)]).await.is_ok()
+    };
+    let r2 = ba.execute_sync(&SyncOptions::default()).await;
+    let n = ws_drain(sock, 1500).await;
+    let _ = (d0, r1, r2);
+    n
+}
+
 async fn sig_token(signer: &BoxedEd25519Signer, msg: &[u8]) -> String {
     let sig = signer.sign(msg).await.unwrap();
     let b: BinaryEd25519Signature = sig.into();
@@ -246,6 +303,9 @@ pub fn run(text: &str, cases_path: &str, out: &mut impl Write) {
             let origin = server.origin.clone();
             let srv_dir: PathBuf = server.paths.documents_dir().to_path_buf();
 
+            // a stranger (a key no account knows) subscribes to A's change notifications before A exists on the server
+            let stranger_signer = DeviceSigner::random().signing_key().clone();
+            let (st_status, mut st_sock, st_extra) = ws_open(&addr, &a.id, &stranger_signer, "c11-stranger").await;
             // accounts A and B reach the server through the SDK's own client (valid credentials)
             let ba = bridge(&a, &origin);
             let bb = bridge(&b, &origin);
@@ -283,6 +343,9 @@ pub fn run(text: &str, cases_path: &str, out: &mut impl Write) {
             }
             let r3 = ba.execute_sync(&SyncOptions::default()).await;
             writeln!(out, "{id} !setup sync_trust={}", r3.is_ok()).unwrap();
+            // d1, trusted now, opens a websocket of its own and keeps it
+            let (d1_status, mut d1_sock, _) = ws_open(&addr, &a.id, &d1_signer, "c11-d1").await;
+            let mut revoked_probe: Option<usize> = None;
             // a file blob on the server for the file routes (uploaded with valid credentials below)
             let folder: VaultId = { *a.dev.bridge.account.lock().await.default_folder().await.unwrap().id() };
             let secret = SecretId::new_v4();
@@ -302,6 +365,8 @@ pub fn run(text: &str, cases_path: &str, out: &mut impl Write) {
                     drop(acc);
                     let r2 = ba.execute_sync(&SyncOptions::default()).await;
                     writeln!(out, "{id} !setup revoke_d1={} revoke_d3_again={} sync={}", r.is_ok(), rr.is_ok(), r2.is_ok()).unwrap();
+                    // d1 is revoked now and still holds the websocket it opened while trusted
+                    revoked_probe = Some(ws_revoked_probe(&a, &ba, &mut d1_sock).await);
                     phase_now = 1;
                 }
                 if phase >= 2 && phase_now == 1 {
@@ -479,6 +544,13 @@ pub fn run(text: &str, cases_path: &str, out: &mut impl Write) {
                 tokio::time::sleep(std::time::Duration::from_millis(15)).await;
                 let after = tree_digest(&srv_dir);
                 writeln!(out, "{id} req {n} route={route} cred={cred} phase={phase} status={} changed={}", resp.status, (before != after) as u8).unwrap();
+            }
+            // websocket probes: what the server pushed to sockets held by keys the account does not trust
+            let stranger_bytes = st_extra + ws_drain(&mut st_sock, 1500).await;
+            writeln!(out, "{id} wsprobe who=stranger status={st_status} pushed={stranger_bytes}").unwrap();
+            match revoked_probe {
+                Some(n) => writeln!(out, "{id} wsprobe who=revoked status={d1_status} pushed={n}").unwrap(),
+                None => writeln!(out, "{id} wsprobe who=revoked status={d1_status} pushed=na").unwrap(),
             }
             crate::acct::set_clock(0);
             drop(server);
